@@ -51,7 +51,8 @@ Pos == 1..N
 Model(seed) ==
   [noa |-> 2, nob |-> 2, nva |-> 2, nvb |-> 2, seed |-> seed,
    restricted |-> FALSE, spincons |-> FALSE, fock |-> "gen", eri |-> "gen",
-   re |-> 0, rD |-> 0, rf |-> 0, rv |-> 0, rV |-> 0, bkn |-> <<0>>,
+   re |-> 0, rD |-> 0, rf |-> 0, rv |-> 0, rV |-> 0, rU |-> 0, umat |-> <<>>,
+   bkn |-> <<0>>,
    tabs |-> << <<>> >>]
 
 -----------------------------------------------------------------------------
